@@ -14,6 +14,7 @@ import kv
 
 POINTS = {
     'publish.written': ['pub:x,y', 'pub:x'],
+    'publish.message': ['pub:x,y', 'pub:x,y,z'],
     'publish.rolled': ['pub:x,y'],
     'delete.found': ['del:1', 'del:0', 'del:3', 'del:0,1,2,3'],
     'delete.synced': ['del:1', 'del:3', 'del:0,1,2,3'],
@@ -21,7 +22,7 @@ POINTS = {
     'consume.indexed': ['cons:0:3', 'cons:1:2', 'cons:-2:5'],
     'gc.unload': ['gc'],
 }
-OTHERS = ['pub:p', 'pub:p,q', 'cons:0:5', 'cons:2:2', 'cons:-2:9', 'get:1', 'get:3', 'del:1', 'del:3', 'del:0,1', 'next',
+OTHERS = ['pub:p', 'pub:p,q', 'cons:0:5', 'cons:2:2', 'cons:-2:9', 'get:1', 'get:3', 'get:4', 'get:5', 'del:1', 'del:3', 'del:0,1', 'next',
           'sync', 'gc']
 SETUPS = [('100000', 'pub:a,b;pub:c,d'), ('60', 'pub:a,b;pub:c,d'), ('60k', 'pub:a;pub:b;pub:c;pub:d'), ('60', 'pub:a,b,c,d')]
 POST = '-- cons:-2:9 cons:1:9 cons:2:9 cons:3:9 cons:4:9 get:1 get:3 next'
@@ -30,12 +31,13 @@ POST = '-- cons:-2:9 cons:1:9 cons:2:9 cons:3:9 cons:4:9 get:1 get:3 next'
 # outcome is compared with the set of outcomes the protocol model of Conc.v allows for that placement
 MPOINTS = {
     'publish.written': ['pub:x,y', 'pub:x'],
+    'publish.message': ['pub:x,y', 'pub:x,y,z'],
     'publish.rolled': ['pub:x,y'],
     'delete.found': ['del:1', 'del:0', 'del:3', 'del:0,1,2,3', 'del:2,3'],
     'delete.synced': ['del:1', 'del:3', 'del:0,1,2,3', 'del:2,3'],
     'delete.rewritten': ['del:1', 'del:0', 'del:3', 'del:2,3', 'del:0,1,2,3'],
 }
-MOTHERS = ['pub:p', 'pub:p,q', 'cons:0:1', 'cons:2:1', 'cons:-2:1', 'cons:4:1', 'cons:3:1', 'get:1', 'get:3', 'get:4', 'del:1', 'del:3',
+MOTHERS = ['pub:p', 'pub:p,q', 'cons:0:1', 'cons:2:1', 'cons:-2:1', 'cons:4:1', 'cons:3:1', 'cons:5:1', 'get:1', 'get:3', 'get:4', 'get:5', 'del:1', 'del:3',
            'del:0,1', 'del:2,3', 'del:0,1,2,3']
 
 
@@ -97,6 +99,8 @@ def c08_extra(pid, tier, seed):
     for i in range(nfree):
         lines.append('crun %d %d %d %s' % (rng.randrange(1 << 30), rng.choice([2, 3, 4, 6, 8]), rng.choice([15, 30, 60]),
                                            rng.choice(['60', '100', '200', '400', '60k', '100k'])))
+    # the start of a log's life under load (fresh directory, publisher + cursor + deleter of the oldest): no call may fail
+    stress_iters = 150 if tier == 'quick' else 3000
     d = kv.workdir('conc-' + pid)
     try:
         k = kv.NCPU
@@ -115,6 +119,15 @@ def c08_extra(pid, tier, seed):
                 raise kv.Broken('kvrun conc failed: ' + r.stderr[-1500:])
         with cf.ThreadPoolExecutor(k) as ex:
             list(ex.map(one, paths))
+        # afterwards, with the machine otherwise quiet (the window is a record half-way through its write): four processes
+        spaths = []
+        for i in range(4):
+            p = os.path.join(d, 's%02d.txt' % i)
+            open(p, 'w').write('cstress %d 60\n' % stress_iters)
+            spaths.append(p)
+        with cf.ThreadPoolExecutor(4) as ex:
+            list(ex.map(one, spaths))
+        paths = paths + spaths
         # the protocol model on the same placements
         mp = os.path.join(d, 'model-placements.txt')
         open(mp, 'w').write('\n'.join(mlines) + '\n')
@@ -159,7 +172,7 @@ def c08_extra(pid, tier, seed):
                 viol.insert(0, ('P', '# C08 violated: the race detector reports a data race during the concurrent runs\n' + txt[:5000]))
         cov = dict(conc=dict(deterministic_placements=len([l for l in lines if l.startswith('cpause')]),
                              placements_compared_with_protocol_model=ncmp, of_which_model_outcome_unique=nsingle,
-                             free_running_histories=nfree, histories_linearizable=nlin, placements_with_point_hit=nhit,
+                             free_running_histories=nfree, start_of_life_stress_iterations=4 * stress_iters, histories_linearizable=nlin, placements_with_point_hit=nhit,
                              linearizability_search_timeouts=nto, race_reports=len(races),
                              rule='placements: every call of a small alphabet (and sampled pairs) inside the windows publish.written, '
                                   'publish.rolled, delete.found/synced/rewritten, consume.indexed, gc.unload of a held call, on 1-4 segment '
